@@ -1,7 +1,7 @@
 (* C10 - format never changes what a file means or says.
    Statements only; proofs in Proofs/FormatProofs.v. *)
 From Coq Require Import String.
-From Verif Require Import Base.Str Base.Lines Base.Outcome Model.Patterns Model.ParseLine Model.Format Proofs.FormatProofs Proofs.FormatIdemProofs Proofs.FormatMeaningProofs.
+From Verif Require Import Base.Str Base.Lines Base.Outcome Model.Patterns Model.ParseLine Model.Format Proofs.FormatProofs Proofs.FormatIdemProofs Proofs.FormatMeaningProofs Proofs.FormatDefLineProofs.
 From Verif Require Tie.Pin_lits_cmd_regex_format_processLine Tie.Pin_lits_cmd_regex_format_processFile
   Tie.Pin_ProcessorBlockStartRegex_src Tie.Pin_ProcessorEndRegex_src Tie.Pin_FlagsRegex_src Tie.Pin_PrefixRegex_src
   Tie.Pin_SuffixRegex_src Tie.Pin_DefinitionRegex_src Tie.Pin_IncludeRegex_src Tie.Pin_IncludeExceptRegex_src
@@ -55,3 +55,17 @@ Theorem C10_blockstart_word_split_refuted :
   m_processor_start $"##!> assemble x" = Some ($"assemble", $"x").
 Proof. exact blockstart_word_split. Qed.
 Print Assumptions C10_blockstart_word_split_refuted.
+
+(* definition directives: the formatted line defines the same name with the same value and is,
+   like the original, read by no other directive pattern (only the first capture, the text in
+   front of the value, which nothing uses, is re-spaced) *)
+Theorem C10_formatted_definition_line_defines_the_same : forall line indent out next g name value,
+  trim_left is_blank line = line -> m_definition line = Some (g, name, value) ->
+  process_line line indent = (Some out, next) ->
+  let out' := trim_left is_blank out in
+  (exists g', m_definition out' = Some (g', name, value)) /\
+  m_block_start out' = m_block_start line /\ m_block_end out' = m_block_end line /\
+  m_flags out' = m_flags line /\ m_prefix out' = m_prefix line /\ m_suffix out' = m_suffix line /\
+  m_include out' = m_include line /\ m_include_except out' = m_include_except line.
+Proof. exact format_keeps_definition. Qed.
+Print Assumptions C10_formatted_definition_line_defines_the_same.
